@@ -9,6 +9,7 @@
 import itertools
 import json
 import os
+import re
 import random
 
 from .. import common, fsmon, proj, rustgen as rg
@@ -255,6 +256,11 @@ def run_matrix_case(a):
             cfg_camel.setdefault("verbose", False)
             cfg_snake.setdefault("force", False)
             cfg_camel.setdefault("force", False)
+        if special in MALFORMED:
+            # one optional member of the entry is malformed: the settings next to it still come from the file, or the run is refused — never silently the defaults
+            (snake_key, value) = MALFORMED[special]
+            cfg_snake[snake_key] = value
+            cfg_camel[re.sub(r"_([a-z])", lambda m: m.group(1).upper(), snake_key)] = value
         argv = [cli, "tauri-typegen", "generate"]
         have_file = bool(filed) or special == "file-says-false"
         # every documented spelling of an option: -p X, --project-path X, --project-path=X
@@ -285,6 +291,8 @@ def run_matrix_case(a):
         out = outdirs[eff_output]
         viol = []
         label = "flags=%s file=%s source=%s%s" % ("+".join(sorted(flags)) or "-", "+".join(sorted(filed)) or "-", source, " " + special if special else "")
+        if r1.rc != 0 and special in MALFORMED and not any(os.path.exists(d) for d in outdirs.values()):
+            return {"viol": [], "label": label + " (refused)"}
         if r1.rc != 0:
             return {"viol": [("C19 precedence run-fails %s" % cell_class(flags, filed, source, special), "%s: exit %s %s" % (label, r1.rc, (r1.err + r1.out)[-200:]))], "label": label}
         before = fsmon.snapshot(app)
@@ -319,6 +327,16 @@ def run_matrix_case(a):
         return {"viol": viol, "label": label}
     finally:
         common.rmtree(root)
+
+
+MALFORMED = {
+    "malformed-typeMappings-value": ("type_mappings", {"Weird": 5}),
+    "malformed-typeMappings-shape": ("type_mappings", ["DateTime", "string"]),
+    "malformed-excludePatterns-item": ("exclude_patterns", ["target", 7]),
+    "malformed-excludePatterns-shape": ("exclude_patterns", "target"),
+    "malformed-includePatterns-item": ("include_patterns", [None]),
+    "malformed-includePatterns-shape": ("include_patterns", {"a": 1}),
+}
 
 
 def cell_class(flags, filed, source, special):
@@ -568,6 +586,11 @@ def run(tier):
         k += 1
         mjobs.append((cli, flags, frozenset(), "-c", base + k, "file-says-false"))
         k += 1
+    for (j, special) in enumerate(sorted(MALFORMED)):
+        for source in ("tauri.conf.json", "-c", "src-tauri/tauri.conf.json"):
+            for flags in (frozenset(), subsets[(base + j) % len(subsets)]):
+                mjobs.append((cli, flags, frozenset(SETTINGS) - flags, source, base + k, special))
+                k += 1
     cells = set()
     for (job, r) in zip(mjobs, common.pmap(run_matrix_case, mjobs, chunksize=2)):
         v.case(("matrix", tuple(sorted(job[1])), tuple(sorted(job[2])), job[3], job[5]), nontrivial=bool(job[1] or job[2]),
